@@ -332,7 +332,7 @@ def m_int_method(ex, p, call, k):
 def m_deref(ex, p, call, k):
     """<T as Deref>::deref for smart pointers / guards we do not inline: a stable cell per pointer"""
     v = call.args[0]
-    inner = ex.deref(p, v) if isinstance(v, Ptr) else v
+    inner = ex.read_loc(p, None, v.key, v.projs) if isinstance(v, Ptr) else v
     if isinstance(inner, Ptr):
         return k(p, inner)
     pt, _ = pointee(call.retty)
